@@ -630,7 +630,9 @@ def run_e2e(ctx, rng, defect_clear, nops, small=False):
     stats = {"programs": 0, "trace_lines": 0, "violating_kinds": 0}
     seen = set()
     # quick tier: ONE small program (all seven kinds, five short histories each, with clear + refill)
-    programs = (("Q", kinds6 + ["big"], True),) if small else (("A", kinds6, False), ("B", kinds6 + ["big"], True))
+    bnd = c06_e2e.BOUNDARY          # key / elem sizes 127, 128, 129 bytes (inline vs indirect slots)
+    programs = ((("Q", kinds6 + ["big"] + bnd, True),) if small else
+                (("A", kinds6, False), ("B", kinds6 + bnd + ["big"], True)))
     for (pname, kinds, with_clear) in programs:
         src, meta = c06_e2e.gen_program(rng, kinds, nops, with_clear, histories=5 if small else 1)
         d = os.path.join(ctx.scratch, "e2e-" + pname)
@@ -662,7 +664,7 @@ def run_e2e(ctx, rng, defect_clear, nops, small=False):
                     continue
                 stats["violating_kinds"] += 1
                 msg, tag, cleared = bad[0]
-                if kind == "big":
+                if kind == "big" and ctx.match_known(KNOWN_BIG) is not None:
                     key = KNOWN_BIG
                 elif tag == "nan-stale":
                     key = KNOWN_NAN
